@@ -323,6 +323,18 @@ def check_case(case, rec):
                     return
         if changed:
             rec.nt((op, str(x)))
+        # the result must not depend on derived values read before the call (caches of the state before the operation)
+        xw = m.copy()
+        try:
+            str(xw), hash(xw), xw.atoms_order, xw.sssr, xw.smiles_atoms_order
+        except Exception:
+            pass
+        if valid:
+            okw, _ = rec.guard(op, apply, op, xw, ft)
+            if okw and molgen.snapshot(xw) != molgen.snapshot(x) and canon_safe(xw) != canon_safe(x):
+                rec.fail('warm-caches', f'{label}: result {str(xw)!r} when str/atoms_order/sssr were read before the call, {str(x)!r} on a '
+                                        f'fresh copy', sig=op)
+                return
         # idempotence
         y = x.copy()
         ok, changed2 = rec.guard(op, apply, op, y, ft)
@@ -344,8 +356,17 @@ def check_case(case, rec):
             rec.count('overlapping matches sharing a named atom: fixed point after repeated application (idempotence of one call not claimed)')
             continue
         if molgen.snapshot(y) != molgen.snapshot(x) and (canon_safe(y) != canon_safe(x) or in_gap(x)) and not in_gap(x):
-            rec.fail('idempotent', f'{label}: second application changes {str(x)!r} -> {str(y)!r}',
-                     sig='vicinal-N-oxides' if vicinal_n_oxides(x) else ('two-donor-cation' if two_donor_cation(x) else op))
+            sig = 'vicinal-N-oxides' if vicinal_n_oxides(x) else ('two-donor-cation' if two_donor_cation(x) else op)
+            if sig == op and op in ('standardize', 'canonicalize', 'canonicalize_kekule') and grafted:
+                # standardize() runs the resonance fixer first and the group rules second: a documented mis-spelling whose rewritten
+                # form is a cation/anion pair in conjugation is only neutralised by the fixer of the next call
+                probe = x.copy()
+                try:
+                    if probe.fix_resonance():
+                        sig = 'resonance-after-rules'
+                except Exception:
+                    pass
+            rec.fail('idempotent', f'{label}: second application changes {str(x)!r} -> {str(y)!r}', sig=sig)
             return
         # numbering independence
         if comparable:
